@@ -27,7 +27,7 @@ import (
 func init() {
 	core.Register(&core.Property{
 		ID: "C02", Level: "exploration", Engine: "hist",
-		Quick: 300000, Thorough: 20000000,
+		Quick: 300000, Thorough: 12000000,
 		Run:        runC02,
 		Rule:       "one run = one generated target type, an initial target state (zero or pre-populated: non-nil maps, slices, pointers, pointers to pointers, interface fields holding pointers) and a history of 2..8 decodes into the same target through Unmarshal / Parse(b,x,0) / Decoder.Decode with each subset of {UseNumber, DisallowUnknownFields}, mirrored step by step on encoding/json with an isomorphic target; documents are encoding/json's own encoding of fresh values of the type, mutated at the value-tree level (always syntactically valid JSON). non-trivial = at least one decode after the first hit a target that already held data (a non-empty prior state); distinct = distinct hash of (type, initial state, documents, entry points)",
 		FaultKinds: []string{"prior-state:prepopulated", "prior-state:left-by-earlier-decode", "prior-state:after-failed-decode(rebuilt)", "doc:null-subvalue", "doc:key-dropped", "doc:unknown-key", "doc:duplicate-key", "doc:key-case-changed", "doc:array-shortened", "doc:array-lengthened", "doc:kind-swapped", "doc:integer-boundary", "doc:quoted-literal", "doc:top-level-empty", "entry:Unmarshal", "entry:Parse", "entry:Decoder", "entry:Decoder+UseNumber", "entry:Decoder+DisallowUnknownFields", "entry:Decoder-stream(one Decoder, successive values into one target)", "stream-document-straddles-first-buffer-fill", "option-switched-on-between-two-decodes"},
